@@ -241,20 +241,53 @@ class CFG:
                 return False
             cur = nxt
 
-    def reachable_without(self, start, goal, blocked: Set, skip_exc: bool = False) -> bool:
-        """Is there a path start -> goal avoiding `blocked` nodes?"""
-        seen, todo = set(), [start]
+    def reachable_without(self, start, goal, blocked: Set, skip_exc: bool = False, stable_names: Iterable[str] = ()) -> bool:
+        """Is there a path start -> goal avoiding `blocked` nodes?
+
+        Path-sensitive for tests on `stable_names` (names that are never re-bound in the function, e.g. parameters):
+        a path may not take contradictory outcomes of `x` / `not x` / `x is None` / `x is not None` tests.
+        """
+        stable = set(stable_names)
+
+        def fact(node, label):
+            s = self.stmt.get(node)
+            if not isinstance(s, (ast.If, ast.While)) or label not in (True, False, 'loop', 'exit'):
+                return None
+            truth = label in (True, 'loop')
+            t = s.test
+            if isinstance(t, ast.UnaryOp) and isinstance(t.op, ast.Not):
+                t, truth = t.operand, not truth
+            if isinstance(t, ast.Name) and t.id in stable:
+                return (t.id, 'truthy', truth)
+            if isinstance(t, ast.Compare) and len(t.ops) == 1 and isinstance(t.left, ast.Name) and t.left.id in stable \
+                    and isinstance(t.comparators[0], ast.Constant) and t.comparators[0].value is None:
+                if isinstance(t.ops[0], ast.Is):
+                    return (t.left.id, 'none', truth)
+                if isinstance(t.ops[0], ast.IsNot):
+                    return (t.left.id, 'none', not truth)
+            return None
+
+        seen, todo = set(), [(start, frozenset())]
         while todo:
-            n = todo.pop()
+            n, facts = todo.pop()
             if n == goal:
                 return True
-            if n in seen or (n in blocked and n != start):
+            if (n, facts) in seen or (n in blocked and n != start):
                 continue
-            seen.add(n)
+            seen.add((n, facts))
             for m in self.g.successors(n):
-                if skip_exc and self.g[n][m].get('labels') == {'exc'}:
+                labels = self.g[n][m].get('labels', {None})
+                if skip_exc and labels == {'exc'}:
                     continue
-                todo.append(m)
+                for lab in labels:
+                    f = fact(n, lab)
+                    if f is None:
+                        todo.append((m, facts))
+                        continue
+                    contra = (f[0], f[1], not f[2])
+                    if contra in facts:
+                        continue
+                    todo.append((m, facts | {f}))
         return False
 
     # control dependence ----------------------------------------------------
